@@ -30,7 +30,7 @@ def pad4 (n : Nat) : Str :=
 
 def zoneText (off : Int) : Str :=
   let a := off.natAbs / 60
-  (if off < 0 then 45 else 43) :: (pad2 (a / 60) ++ pad2 (a % 60))
+  (if off ≤ -60 then 45 else 43) :: (pad2 (a / 60) ++ pad2 (a % 60))   -- the sign is that of the offset in whole minutes
 
 /-- `t.Format(internal.DateTimeLayout)` for years 0..9999 -/
 def dateTimeText (t : DateTime) : Str :=
@@ -708,62 +708,73 @@ def readRespText (tagged : Bool) (s : Str) : Option (Code × Str) :=
 /-- Decoder.ExpectList over msg-att items -/
 def readItems (s : Str) : Option (List Item × Str) := decList readItem s
 
-/-- client.go readResponse: one response, CRLF included -/
-def readResponse (s : Str) : Option (Event × Str) :=
-  let finish (x : Option (Event × Str)) : Option (Event × Str) :=
-    x.bind fun (e, r) => (decCRLF r).map fun r' => (e, r')
-  match s with
-  | 43 :: _ => none                                   -- continuation request: not part of a response to these commands
-  | 42 :: r =>
+/-- client.go readResponseData after the (optional) number: the switch on the response name -/
+def dispatchData (num : Nat) (typ : Str) (r : Str) : Option (Event × Str) :=
+  if typ = asc "OK" || typ = asc "PREAUTH" || typ = asc "NO" || typ = asc "BAD" || typ = asc "BYE" then
+    (readRespText false r).map fun (c, r') => (Event.cond typ c, r')
+  else if typ = asc "CAPABILITY" then (readCaps (r.length + 1) r).map fun (l, r') => (Event.caps l, r')
+  else if typ = asc "NAMESPACE" then (expectSP r).bind fun r => (readNamespace r).map fun (d, r') => (Event.namespace_ d, r')
+  else if typ = asc "FLAGS" then (expectSP r).bind fun r => (decList decFlag r).map fun (l, r') => (Event.flags l, r')
+  else if typ = asc "EXISTS" then some (Event.exists_ num, r)
+  else if typ = asc "RECENT" then some (Event.recent num, r)
+  else if typ = asc "LIST" then (expectSP r).bind fun r => (readList r).map fun (d, r') => (Event.list d, r')
+  else if typ = asc "STATUS" then (expectSP r).bind fun r => (readStatus r).map fun (d, r') => (Event.status d, r')
+  else if typ = asc "FETCH" then
+    (expectSP r).bind fun r => (readItems r).map fun (its, r') => (Event.fetch { seq := num, items := its }, r')
+  else if typ = asc "EXPUNGE" then some (Event.expunge num, r)
+  else if typ = asc "SEARCH" then (readSearchNums (r.length + 1) r).map fun (l, r') => (Event.search l, r')
+  else if typ = asc "ESEARCH" then
+    (expectSP r).bind fun r => (readESearch r).map fun (tag, d, r') => (Event.esearch tag d, r')
+  else none
+
+/-- readResponse's tail: the response must end with CRLF -/
+def finishLine (x : Option (Event × Str)) : Option (Event × Str) :=
+  x.bind fun (e, r) => (decCRLF r).map fun r' => (e, r')
+
+/-- readResponseData: `number SP ("EXISTS" / "RECENT" / "FETCH" / "EXPUNGE")` or a response name -/
+def readNumbered (typ0 r : Str) : Option (Nat × Str × Str) :=
+  match typ0 with
+  | c :: _ =>
+    if isDigitB c then
+      if typ0.all isDigitB && valB typ0 < 4294967296 then
+        (expectSP r).bind fun r' => (tryAtom r').map fun (t, r'') => (valB typ0, t, r'')
+      else none
+    else some (0, typ0, r)
+  | [] => none
+
+/-- an untagged response after `* ` -/
+def readUntagged (r : Str) : Option (Event × Str) :=
+  match tryAtom r with
+  | none => none
+  | some (typ0, r) =>
+    match readNumbered typ0 r with
+    | none => none
+    | some (num, typ, r) => finishLine (dispatchData num typ r)
+
+/-- a tagged response (readResponseTagged): OK / NO / BAD with an optional response code -/
+def readTagged (s : Str) : Option (Event × Str) :=
+  match tryAtom s with
+  | none => none
+  | some (tag, r) =>
     match expectSP r with
     | none => none
     | some r =>
       match tryAtom r with
       | none => none
-      | some (typ0, r) =>
-        -- number SP ("EXISTS" / "RECENT" / "FETCH" / "EXPUNGE")
-        let numbered : Option (Nat × Str × Str) :=
-          match typ0 with
-          | c :: _ =>
-            if isDigitB c then
-              if typ0.all isDigitB && valB typ0 < 4294967296 then
-                (expectSP r).bind fun r' => (tryAtom r').map fun (t, r'') => (valB typ0, t, r'')
-              else none
-            else some (0, typ0, r)
-          | [] => none
-        match numbered with
-        | none => none
-        | some (num, typ, r) =>
-          finish (
-            if typ = asc "OK" || typ = asc "PREAUTH" || typ = asc "NO" || typ = asc "BAD" || typ = asc "BYE" then
-              (readRespText false r).map fun (c, r') => (Event.cond typ c, r')
-            else if typ = asc "CAPABILITY" then (readCaps (r.length + 1) r).map fun (l, r') => (Event.caps l, r')
-            else if typ = asc "NAMESPACE" then (expectSP r).bind fun r => (readNamespace r).map fun (d, r') => (Event.namespace_ d, r')
-            else if typ = asc "FLAGS" then (expectSP r).bind fun r => (decList decFlag r).map fun (l, r') => (Event.flags l, r')
-            else if typ = asc "EXISTS" then some (Event.exists_ num, r)
-            else if typ = asc "RECENT" then some (Event.recent num, r)
-            else if typ = asc "LIST" then (expectSP r).bind fun r => (readList r).map fun (d, r') => (Event.list d, r')
-            else if typ = asc "STATUS" then (expectSP r).bind fun r => (readStatus r).map fun (d, r') => (Event.status d, r')
-            else if typ = asc "FETCH" then
-              (expectSP r).bind fun r => (readItems r).map fun (its, r') => (Event.fetch { seq := num, items := its }, r')
-            else if typ = asc "EXPUNGE" then some (Event.expunge num, r)
-            else if typ = asc "SEARCH" then (readSearchNums (r.length + 1) r).map fun (l, r') => (Event.search l, r')
-            else if typ = asc "ESEARCH" then
-              (expectSP r).bind fun r => (readESearch r).map fun (tag, d, r') => (Event.esearch tag d, r')
-            else none)
-  | _ =>
-    match tryAtom s with
+      | some (typ, r) =>
+        if typ = asc "OK" || typ = asc "NO" || typ = asc "BAD" then
+          finishLine ((readRespText true r).map fun (c, r') => (Event.done tag typ c, r'))
+        else none
+
+/-- client.go readResponse: one response, CRLF included -/
+def readResponse (s : Str) : Option (Event × Str) :=
+  match s with
+  | 43 :: _ => none                                   -- continuation request: not part of a response to these commands
+  | 42 :: r =>
+    match expectSP r with
     | none => none
-    | some (tag, r) =>
-      match expectSP r with
-      | none => none
-      | some r =>
-        match tryAtom r with
-        | none => none
-        | some (typ, r) =>
-          if typ = asc "OK" || typ = asc "NO" || typ = asc "BAD" then
-            finish ((readRespText true r).map fun (c, r') => (Event.done tag typ c, r'))
-          else none
+    | some r => readUntagged r
+  | _ => readTagged s
 
 /-- the client's read loop over a byte stream -/
 def parseResponses : Nat → Str → Option (List Event)
@@ -866,18 +877,21 @@ def deliverCopy (evs : List Event) : CopyData :=
     | .done _ _ (.copyUID v s d) => { uidValidity := v, src := s, dst := d }
     | _ => acc) { uidValidity := 0, src := [], dst := [] }
 
+/-- the numbers of the EXPUNGE responses, in order -/
+def expungeNums (evs : List Event) : List Nat :=
+  evs.filterMap fun e => match e with | .expunge n => some n | _ => none
+
 /-- MOVE: the COPYUID code of an untagged OK; EXPUNGE goes to the unilateral data handler -/
 def deliverMove (evs : List Event) : CopyData × List Nat :=
   (evs.foldl (fun acc e => match e with
     | .cond _ (.copyUID v s d) => { uidValidity := v, src := s, dst := d }
     | _ => acc) { uidValidity := 0, src := [], dst := [] },
-   evs.filterMap fun e => match e with | .expunge n => some n | _ => none)
+   expungeNums evs)
 
 def deliverNamespace (evs : List Event) : NamespaceData :=
   evs.foldl (fun acc e => match e with | .namespace_ d => d | _ => acc) { personal := none, other := none, shared := none }
 
 /-- ExpungeCommand.Collect stops at the first zero -/
-def deliverExpunge (evs : List Event) : List Nat :=
-  (evs.filterMap fun e => match e with | .expunge n => some n | _ => none).takeWhile (· ≠ 0)
+def deliverExpunge (evs : List Event) : List Nat := (expungeNums evs).takeWhile (· ≠ 0)
 
 end GoImap.Resp
